@@ -90,60 +90,97 @@ def run_impl(uni, cache, grouped, ops):
         return out
 
     emit_counts = []
+    skipped = []
+    partial = set()  # generators abandoned by a session loss: only a prefix was consumed
 
-    def emit_one():
+    def effective(item):
+        """what reaches the wire for one generator item (withdraws are left out of the first batch)"""
+        out = []
+        for u in flatten(item):
+            if u[0] == 4 and not include_withdraw:
+                skipped.append(u)
+                continue
+            out.append(u)
+        return out
+
+    def fetch():
+        """next item that puts something on the wire; an UpdateCollection whose messages() yields nothing
+        does not suspend new_update_generator, the loop goes on to the next one"""
         nonlocal cur
-        emit_counts.append(0)
-        if cur is None:
-            return
-        if buf:
-            item = buf.pop(0)
-        else:
+        while cur is not None:
             try:
                 item = next(cur)
             except StopIteration:
                 cur = None
                 return
-        for u in flatten(item):
+            eff = effective(item)
+            if eff:
+                buf.append(eff)
+                return
+
+    def emit_one():
+        emit_counts.append(0)
+        if not buf:
+            return
+        for u in buf.pop(0):
             emit_counts[-1] += 1
+            if u[0] == 3 and u[1] in banned:
+                readvertised.append(u)
             gens[-1].append(u)
             emitted.append(u)
             if u[0] == 3:
                 peer[u[1]] = (u[2], u[3])
             elif u[0] == 4:
                 peer.pop(u[1], None)
+        fetch()
 
+    up = True
+    fresh = True  # Peer._main starts every session with include_withdraw = False for its first generator
+    include_withdraw = True
+    banned = set()  # withdrawn while down and not announced since: must not be advertised again
+    readvertised = []
     for op in ops:
         kind = op[0]
         if kind in ('ann', 'annf'):
             rib.add_to_rib(uni.routes[op[1]], kind == 'annf')
+            banned.discard(uni.ids(uni.routes[op[1]])[0])
         elif kind == 'wd':
             rib.del_from_rib(uni.routes[op[1]])
+            if not up:
+                banned.add(uni.ids(uni.routes[op[1]])[0])
+        elif kind == 'drop':
+            rib.reset()
+            if cur is not None or buf:
+                partial.add(len(gens) - 1)
+            cur, buf = None, []
+            peer.clear()
+            up = False
+        elif kind == 'establish':
+            if not up:
+                rib.replace_restart([], [])
+                up = True
+                fresh = True
+        elif kind in ('start', 'emit') and not up:
+            if kind == 'emit':
+                emit_counts.append(0)
         elif kind == 'resend':
             rib.resend(op[1], None if op[2] is None else uni.fam_tuple(op[2]))
         elif kind == 'wdall':
             rib.withdraw(None if op[1] is None else {uni.fam_tuple(f) for f in op[1]})
         elif kind == 'start':
-            if cur is None and not buf:
+            if cur is None and not buf and rib.pending():
                 cur = rib.updates(grouped)
                 gens.append([])
-                try:
-                    buf.append(next(cur))
-                except StopIteration:
-                    cur = None
+                include_withdraw = not fresh
+                fresh = False
+                fetch()
         elif kind == 'emit':
             emit_one()
-            if cur is not None and not buf:
-                # generator exhaustion is only visible on the next next(): probe like the peer loop does
-                try:
-                    buf.append(next(cur))
-                except StopIteration:
-                    cur = None
     seen = []
     for r in rib.cached_routes():
         i, f, a, h = uni.ids(r)
         seen.append((i, a, h))
-    return {'emit_counts': emit_counts, 'gens': gens, 'seen': sorted(seen), 'peer': dict(peer), 'pending': rib.pending(), 'live': cur is not None or bool(buf)}
+    return {'partial': sorted(partial), 'readvertised': readvertised, 'emit_counts': emit_counts, 'gens': gens, 'seen': sorted(seen), 'peer': dict(peer), 'pending': rib.pending(), 'live': cur is not None or bool(buf)}
 
 
 # ------------------------------------------------------------------------------- model side
@@ -169,6 +206,10 @@ def coq_op(uni, op, emits_per_flatten):
         return f'WdAll {fams}'
     if kind == 'start':
         return 'Start'
+    if kind == 'drop':
+        return 'Drop'
+    if kind == 'establish':
+        return 'Establish'
     return 'Emit'
 
 
@@ -255,12 +296,15 @@ def model_eval(uni, cases, tag, emit_counts=None):
 # ------------------------------------------------------------------------------- generation
 
 
-def gen_ops(rng, uni, n, cache):
+def gen_ops(rng, uni, n, cache, sessions=False):
     keys = list(uni.routes)
     ops = []
     # bias: a small set of prefixes so that the same index is hit with different attributes
     hot = rng.sample(range(len(uni.prefixes)), k=min(2, len(uni.prefixes)))
     for _ in range(n):
+        if sessions and rng.random() < 0.12:
+            ops.append(rng.choice([('drop',), ('drop',), ('establish',)]))
+            continue
         x = rng.random()
         p = rng.choice(hot) if rng.random() < 0.7 else rng.randrange(len(uni.prefixes))
         key = (p, rng.randrange(len(uni.attrs)), rng.randrange(2))
@@ -283,8 +327,11 @@ def gen_ops(rng, uni, n, cache):
 
 def close_schedule(ops):
     """drain: finish the live generator, then one more flush, fully consumed"""
-    tail = [('emit',)] * 40 + [('start',)] + [('emit',)] * 60 + [('start',)] + [('emit',)] * 10
+    tail = [('establish',)] + [('emit',)] * 39 + [('start',)] + [('emit',)] * 60 + [('start',)] + [('emit',)] * 10
     return list(ops) + tail
+
+
+TAIL = len(close_schedule([]))
 
 
 def expected_table(uni, ops):
@@ -330,11 +377,14 @@ def check(tier, seed, pid='C04'):
     cases = []
     for _ in range(n):
         cache = True if rng.random() < 0.9 else False
-        ops = close_schedule(gen_ops(rng, uni, rng.choice([3, 6, 10, 18, 25]), cache))
+        ops = close_schedule(gen_ops(rng, uni, rng.choice([3, 6, 10, 18, 25]), cache, sessions=(pid == 'C11')))
         cases.append((cache, rng.random() < 0.5, ops))
     # small-scope exhaustive: all sequences of length <= L over 1 prefix x 2 attribute sets x {ann, wd, start, emit}
     L = 5 if tier == 'quick' else 7
     alpha = [('ann', (0, 0, 0)), ('ann', (0, 1, 0)), ('wd', (0, 0, 0)), ('start',), ('emit',)]
+    if pid == 'C11':
+        alpha = [('ann', (0, 0, 0)), ('ann', (1, 1, 0)), ('wd', (0, 0, 0)), ('start',), ('emit',), ('drop',), ('establish',)]
+        L = 4 if tier == 'quick' else 6
     exhaustive = 0
     for ln in range(1, L + 1):
         for seq in itertools.product(alpha, repeat=ln):
@@ -350,19 +400,34 @@ def check(tier, seed, pid='C04'):
     corr_bad, conv_bad = [], []
     opmix = collections.Counter()
     for idx, ((cache, grouped, ops), im, mo) in enumerate(zip(cases, impl, model)):
-        for o in ops[: len(ops) - 111]:
+        for o in ops[: len(ops) - TAIL]:
             opmix[o[0]] += 1
         if mo is not None:
             gens, seen, mpeer, mint = parse_obs(mo)
             igens = [g for g in im['gens']]
+            def gens_match():
+                if len(gens) != len(igens):
+                    return False
+                for n, (mg, ig) in enumerate(zip(gens, igens)):
+                    if n in im['partial']:
+                        need = collections.Counter(ig)
+                        have = collections.Counter(mg)
+                        if any(have[k] < v for k, v in need.items()):
+                            return False
+                    elif sorted(mg) != sorted(ig):
+                        return False
+                return True
+
             same = (
-                [sorted(g) for g in gens] == [sorted(g) for g in igens]
+                gens_match()
                 and (not cache or seen == im['seen'])
                 and mpeer == im['peer']
             )
             if not same:
                 corr_bad.append(idx)
         # property oracle (independent of the model): drained -> peer table = reported table = intention
+        if cache and im['readvertised']:
+            conv_bad.append((idx, 'withdrawn-while-down-readvertised', f'{im["readvertised"]}'))
         if cache:
             reported = {i: (a, h) for i, a, h in im['seen']}
             want = expected_table(uni, ops)
@@ -376,7 +441,7 @@ def check(tier, seed, pid='C04'):
     first = ''
     if corr_bad:
         c = cases[corr_bad[0]]
-        first = f'ops={c[2][: len(c[2]) - 111]} cache={c[0]} impl={impl[corr_bad[0]]} model={parse_obs(model[corr_bad[0]]) if model[corr_bad[0]] else None}'
+        first = f'ops={c[2][: len(c[2]) - TAIL]} cache={c[0]} impl={impl[corr_bad[0]]} model={parse_obs(model[corr_bad[0]]) if model[corr_bad[0]] else None}'
     run.obligation(f'correspondence: OutgoingRIB generator output, cached_routes() and peer table = Model_Rib on {len(cases)} histories',
                    not corr_bad, f'{len(corr_bad)} disagreements; first: {first}')
     run.obligation(f'property oracle: after draining, peer table = cached_routes() = operator intention on {len(cases)} histories',
@@ -388,12 +453,14 @@ def check(tier, seed, pid='C04'):
             continue
         seen_sig.add(sig)
         cache, grouped, ops = cases[idx]
-        core = ops[: len(ops) - 111]
+        core = ops[: len(ops) - TAIL]
         # shrink: drop operations while the same failure remains
 
         def fails(cand):
             im = run_impl(uni, cache, grouped, close_schedule(cand))
             rep = {i: (a, h) for i, a, h in im['seen']}
+            if sig == 'withdrawn-while-down-readvertised':
+                return bool(im['readvertised'])
             if sig == 'peer-differs-from-reported':
                 return im['peer'] != rep and not im['pending']
             if sig == 'reported-differs-from-intended':
@@ -421,7 +488,7 @@ def check(tier, seed, pid='C04'):
 
     run.coverage.update({
         'evaluations': len(cases),
-        'distinct_nontrivial': len({(c, tuple(map(str, o))) for c, g, o in cases if len(o) > 112}),
+        'distinct_nontrivial': len({(c, tuple(map(str, o))) for c, g, o in cases if len(o) > TAIL + 1}),
         'rule': f'{n} random histories of 3-25 operations (announce / forced announce / withdraw of 6 prefixes x 3 attribute '
                 f'sets x 2 next hops biased to 2 hot prefixes, flush=resend with/without enhanced refresh, clear=withdraw '
                 f'all, generator start and single-step consumption interleaved at random) each closed by a draining '
@@ -432,7 +499,7 @@ def check(tier, seed, pid='C04'):
         'exhaustive': False,
     })
     c = cases[0]
-    run.samples.append({'cache': c[0], 'grouped': c[1], 'ops': [str(o) for o in c[2][: len(c[2]) - 111]], 'impl': str(impl[0])[:400]})
+    run.samples.append({'cache': c[0], 'grouped': c[1], 'ops': [str(o) for o in c[2][: len(c[2]) - TAIL]], 'impl': str(impl[0])[:400]})
     if run.broken() and not run.failing:
         run.coverage['search'] = f'{len(cases)} histories incl. all of length <= {L} on one prefix judged by the convergence oracle; none failed'
     return run.finish(checker_cmd=f'make -C coq props/Prop_{pid}.vo && coqc -Q coq ExaV coq/props/Prop_{pid}.v (Print Assumptions)')
